@@ -627,8 +627,20 @@ package rsm
 //@ func (cw *ChunkWriter) onNewChunk [C14]
 //@ trusted hands the chunk to the sink
 //@ ghostset gLastChunkData := ptr(chunk.Data)
-//@ func (cw *ChunkWriter) getChunk [C14]
-//@ trusted fills in the chunk's identification fields
+// C08/C15: every chunk of a streamed snapshot identifies the snapshot it belongs to exactly as the
+// snapshot's metadata does -- index, term, the on-disk state machine's index (the receiver decides
+// from it whether the streamed state must be recovered), membership, sender
+//@ func (cw *ChunkWriter) getChunk [C14 C08 C15]
+//@ noframe
+//@ nobounds
+//@ ensures result.Index == cw.meta.Index && result.Term == cw.meta.Term && result.OnDiskIndex == cw.meta.OnDiskIndex && result.From == cw.meta.From
+//@ ensures result.ChunkId == cw.chunkID && result.FileChunkId == cw.chunkID && result.BinVer == raftio.TransportBinVersion
+//@ ensures result.Membership.Addresses == cw.meta.Membership.Addresses && result.Membership.NonVotings == cw.meta.Membership.NonVotings && result.Membership.Witnesses == cw.meta.Membership.Witnesses && result.Membership.Removed == cw.meta.Membership.Removed && result.Membership.ConfigChangeId == cw.meta.Membership.ConfigChangeId
+//@ func (cw *ChunkWriter) getTailChunk [C08 C15]
+//@ noframe
+//@ nobounds
+//@ ensures result.Index == cw.meta.Index && result.Term == cw.meta.Term && result.OnDiskIndex == cw.meta.OnDiskIndex && result.From == cw.meta.From
+//@ ensures result.ChunkCount == pb.LastChunkCount && result.FileChunkCount == pb.LastChunkCount
 //@ func (cw *ChunkWriter) getHeader [C14]
 //@ trusted builds a fresh header buffer
 //@ ensures fresh(result) && len(result) > 0
